@@ -52,6 +52,14 @@ TRACE_SET = ("openat,open,creat,write,pwrite64,writev,ftruncate,truncate,rename,
 CHILD_TIMEOUT = 120
 
 
+FP_REUSE = "C15|wellformed-or-absent|Search.__init__|evaluator used by an earlier search, no results.csv in log_dir"
+
+
+def _headerless(scn, lines):
+    """the signature of 10e: an evaluator that already dumped appends to a new file"""
+    return any(r.get("reuse") for r in scn["runs"]) and bool(lines) and lines[0][0] != "h"
+
+
 def _fp_nd(scn):
     return FP_NO_DESTROY_EARLY if scn.get("early") else FP_NO_DESTROY
 
@@ -755,28 +763,53 @@ def _scenarios(ck):
         {"clock": "const", "runs": [{"kind": "random", "nobj": 1, "batch": 2, "calls": [2]},
                                     {"kind": "random", "nobj": 2, "batch": 2, "calls": [2]},
                                     {"kind": "cbo", "nobj": 1, "batch": 3, "calls": [3]}]},
-        # CBO multi-objective with failures mixed in
+        # CBO, three objectives
         {"runs": [{"kind": "cbo", "nobj": 3, "batch": 4, "calls": [6, 2]}]},
         {"runs": [{"kind": "random", "nobj": 1, "batch": 4, "calls": [6, 2], "fail": "some"}]},
+        # multi-objective searches with failing evaluations: first batch / some / all
+        {"runs": [{"kind": "random", "nobj": 2, "batch": 2, "calls": [5], "fail": "first"}]},
+        {"runs": [{"kind": "cbo", "nobj": 2, "batch": 3, "calls": [5, 2], "fail": "some"}]},
+        {"runs": [{"kind": "random", "nobj": 3, "batch": 2, "calls": [3], "fail": "all"}]},
+        # CBO with every option at its default (fits its surrogate after 10 evaluations), DUMMY surrogate
+        {"runs": [{"kind": "cbo-default", "nobj": 1, "batch": 4, "calls": [13]}]},
+        {"runs": [{"kind": "cbo-dummy", "nobj": 2, "batch": 2, "calls": [4]}]},
+        # the other search classes
+        {"runs": [{"kind": "eds", "nobj": 1, "batch": 3, "calls": [4, 2]}]},
+        {"runs": [{"kind": "regevo", "nobj": 2, "batch": 2, "calls": [6]}]},
+        # search(timeout=1) with evaluations that take time: rows of CANCELLED jobs (their run-function returned
+        # after the deadline), then a second call by budget
+        {"runs": [{"kind": "random", "nobj": 2, "batch": 3, "calls": [{"t": 1}, 2], "sleep": True}]},
+        # one evaluator serves a search in another directory, then searches here (10e), same time stamp
+        {"clock": "const", "runs": [{"kind": "random", "nobj": 1, "batch": 2, "calls": [2], "elsewhere": True},
+                                    {"kind": "random", "nobj": 1, "batch": 2, "calls": [3, 1], "reuse": True},
+                                    {"kind": "cbo", "nobj": 1, "batch": 1, "calls": [2], "reuse": True}]},
     ]
+    kinds = ["random", "random", "cbo", "cbo", "regevo", "eds", "cbo-dummy"]
     extra = []
     for t in range(ck.pick(3, 30)):
         nruns = rng.choice([1, 1, 1, 2, 3])
         runs = []
-        for _ in range(nruns):
-            kind = rng.choice(["random", "cbo"])
+        reuse = nruns > 1 and rng.random() < 0.3
+        for i in range(nruns):
+            kind = rng.choice(kinds)
             nobj = rng.choice([1, 2, 2, 3])
             runs.append({"kind": kind, "nobj": nobj,
                          "batch": rng.randint(1, 8), "calls": [rng.randint(1, 6) for _ in range(rng.randint(1, 3))],
                          # wide rows (a dump then needs several write() calls) only with RandomSearch: a
                          # 100-dimensional CBO costs seconds per ask and adds nothing to the file protocol
-                         "wide": rng.choice([0, 0, 60, 120]) if kind == "random" else 0,
-                         # failing objectives only with RandomSearch: what CBO does with them is C06's subject
-                         # (and only single-objective: fit_surrogate on a multi-objective table with failures
-                         # raises whether or not anything was killed)
-                         "fail": rng.choice(["none", "none", "some", "first"]) if kind == "random" and nobj == 1 else "none",
+                         "wide": rng.choice([0, 0, 60, 120]) if kind == "random" and not reuse else 0,
+                         "fail": rng.choice(["none", "none", "some", "first", "all"]),
                          "seed": rng.randint(0, 10 ** 6)})
+            if reuse and i:
+                # the evaluator (run-function, number of objectives, space) of the previous search is kept
+                runs[-1].update(reuse=True, nobj=runs[0]["nobj"], batch=runs[0]["batch"], fail=runs[0]["fail"], wide=0)
+            if reuse and not i and rng.random() < 0.5:
+                runs[-1]["elsewhere"] = True
         extra.append({"clock": rng.choice(["real", "const"]), "runs": runs})
+    for t in range(ck.pick(0, 3)):
+        extra.append({"runs": [{"kind": rng.choice(["random", "cbo"]), "nobj": rng.choice([1, 2]), "batch": rng.randint(2, 4),
+                                "calls": [{"t": 1}] + ([rng.randint(1, 3)] if rng.random() < 0.5 else []), "sleep": True,
+                                "seed": rng.randint(0, 999)}]})
     same = []
     for t in range(ck.pick(4, 16)):
         n = rng.randint(2, 5) if t else 5
@@ -818,8 +851,9 @@ def _kill_points(ck, scn, ops, gs):
     ck.rng.shuffle(rest)
     ks.update(rest[:2])
     ks = sorted(ks)
-    if len(ks) > 16:
-        keep = set(ck.rng.sample(ks, 16)) | {0, n - 1}
+    cap = 6 if any(isinstance(c, dict) for r in scn["runs"] for c in r["calls"]) else 12
+    if len(ks) > cap:
+        keep = set(ck.rng.sample(ks, cap)) | {0, n - 1}
         ks = sorted(keep)
     return ks
 
@@ -856,7 +890,7 @@ def _inject_for(ops, k):
 
 def _size(scn):
     return (len(scn["runs"]), sum(len(r["calls"]) for r in scn["runs"]), sum(r["batch"] for r in scn["runs"]),
-            sum(r.get("wide", 0) for r in scn["runs"]))
+            sum(r.get("wide", 0) for r in scn["runs"]), sum(1 for r in scn["runs"] if r["kind"] != "random"))
 
 
 def _opts(scn, phase):
@@ -943,6 +977,19 @@ def _check_record(ck, ev, scn, rec):
             ck.mismatch(case, {"model_files": sorted(mdir), "disk_files": sorted(rec["files"])})
 
     ev.ask({"op": "replay", "runs": runs}, on_replay)
+    # the file a finished search leaves is a well-formed table of finished evaluations holding every dumped row
+    fin = rec["files"].get("results.csv")
+    if fin is not None:
+        fown = _tag_owner(ops).get("results.csv", 0)
+        fdumped = [j for g in gs if g["kind"] == "dump" and ops[g["ops"][0]].get("sid", 0) == fown
+                   for i in g["ops"] if ops[i]["op"] == "write" for j in _jobs(ops[i]["lines"])]
+
+        def on_final(rep):
+            if not rep["visible"]:
+                ck.fail(FP_REUSE if _headerless(scn, rep["lines"]) else "C15|wellformed-or-absent|finished|any",
+                        "the results.csv left by a search that ran to its end is not header + complete rows of finished evaluations",
+                        case, {"lines": rep["lines"][:6], "bytes_head": fin[:200]})
+        ev.ask({"op": "check", "text": fin, "sid": fown, "done": _done_jobs(rec["done"]), "dumped": fdumped}, on_final)
     # every finished search's results are still on disk in distinct files
     _check_snapshots(ck, scn, None, rec["snaps"], rec["files"], "finished", case)
     # ... and a further search in the directory keeps them, loads the last one and runs
@@ -1068,7 +1115,11 @@ def _check_kill(ck, ev, scn, rec, gs, runs, k, res):
     def on_check(rep):
         if not rep["visible"]:
             lines = rep["lines"]
-            if text is not None and not rep["wf"]:
+            if text is not None and not rep["wf"] and _headerless(scn, lines):
+                state["failed"] = True
+                ck.fail(FP_REUSE, "results.csv has no header line: the evaluator kept appending as for its previous search", case,
+                        {"lines": lines[:6], "bytes_head": text[:200]})
+            elif text is not None and not rep["wf"]:
                 fail("wellformed-or-absent", f"after a kill in {phase} results.csv is neither absent nor header + complete rows "
                      f"({len(text)} bytes on disk, {len(done)} evaluations had finished)", {"lines": lines, "bytes_head": text[:200]})
             elif text is None:
@@ -1257,6 +1308,8 @@ def run(ck):
                 ck.count(f"search:{r['kind']},nobj={r['nobj']}")
                 ck.count(f"batch={r['batch']}")
                 ck.count(f"calls={len(r['calls'])}")
+                ck.count("call:timeout", sum(1 for c in r["calls"] if isinstance(c, dict)))
+                ck.count("evaluator:" + ("reused" if r.get("reuse") else "other-directory" if r.get("elsewhere") else "own"))
                 ck.count("fail:" + r["fail"])
                 ck.count("wide" if r["wide"] else "narrow")
             ck.count("clock:" + s["clock"])
